@@ -142,10 +142,10 @@ REG["C16"] = dict(
 )
 
 REG["C02"] = dict(
-    harnesses=[H(P, "VerifH_C17_columnWriterReset"), H(P, "VerifH_C02_pageAccounting", max_seconds=600), H(E + "thrift", "VerifH_C02_compactIntegers"), H(E + "thrift", "VerifH_C02_compactHeaders"), H(P, "VerifH_C02_reencodeRowBoundaries")],
-    explanation="Kernel-wise; the independent decoder is realised as reference functions written in the harness from the format specifications. (K1) ColumnWriter.recordPageStats on a dictionary page and up to three data pages with symbolic header sizes, body sizes and row/value/null counts: every page location's offset is the sum of the sizes of everything stored before it in the chunk, first_row_index is the sum of earlier rows, compressed_page_size is header+body, and the chunk totals and encoding statistics are the sums. (K1') the per-row-group state of a column writer (level histograms, counters, sizes, statistics) is returned to its initial value between row groups, so the metadata of a row group only describes that row group. (K4) Thrift compact protocol primitives, through which every header and the footer pass: zig-zag varints for i16/i32/i64, field headers (delta short form and long form), list headers (short and long form), binary values and the stop field are decoded from the written bytes by a decoder written from the thrift-compact spec and by the library's reader, for all values. (K5) encodings against spec decoders: see C04. (K6) the re-encode path hands only whole rows to the column writer, so pages begin on row boundaries (rows around the 1024-value batch of copyColumnValues).",
+    harnesses=[H(P, "VerifH_C17_columnWriterReset"), H(P, "VerifH_C02_pageAccounting", max_seconds=600), H(E + "thrift", "VerifH_C02_compactIntegers"), H(E + "thrift", "VerifH_C02_compactHeaders"), H(P, "VerifH_C02_reencodeRowBoundaries"), H(P, "VerifH_C02_rowGroupFileOffset")],
+    explanation="Kernel-wise; the independent decoder is realised as reference functions written in the harness from the format specifications. (K1) ColumnWriter.recordPageStats on a dictionary page and up to three data pages with symbolic header sizes, body sizes and row/value/null counts: every page location's offset is the sum of the sizes of everything stored before it in the chunk, first_row_index is the sum of earlier rows, compressed_page_size is header+body, and the chunk totals and encoding statistics are the sums. (K1') the per-row-group state of a column writer (level histograms, counters, sizes, statistics) is returned to its initial value between row groups, so the metadata of a row group only describes that row group. (K2, part) the file_offset recorded for each row group is the offset of its first byte, after the magic, also when the first row group is written before Close (real newWriter/writeFileHeader/writeRowGroup, pages stubbed; replayed natively through Flush). (K4) Thrift compact protocol primitives, through which every header and the footer pass: zig-zag varints for i16/i32/i64, field headers (delta short form and long form), list headers (short and long form), binary values and the stop field are decoded from the written bytes by a decoder written from the thrift-compact spec and by the library's reader, for all values. (K5) encodings against spec decoders: see C04. (K6) the re-encode path hands only whole rows to the column writer, so pages begin on row boundaries (rows around the 1024-value batch of copyColumnValues).",
     bounds={"quick": "K1: optional dictionary page + 1..3 data pages, header sizes <256, body sizes <65536, rows/nulls <256; K4: all int16/int32/int64 values, field ids >=1, list sizes >=0, binary 0..3 bytes; K6: first row of 1016..1026 values, second 1..4, third 0..2", "thorough": "same"},
-    outside=["footer and page-header struct serialisation (reflection-driven Thrift encoder)", "absolute file offsets in writeRowGroup and the verbatim-copy splice (K2), checksum ordering in writeDataPage (K3)", "whole-file parse by an independent reader", "bloom filter header, sorting metadata, key-value metadata"],
+    outside=["footer and page-header struct serialisation (reflection-driven Thrift encoder)", "page and dictionary offsets inside writeRowGroup and the verbatim-copy splice (rest of K2), checksum ordering in writeDataPage (K3)", "whole-file parse by an independent reader", "bloom filter header, sorting metadata, key-value metadata"],
 )
 REG["C11"] = dict(
     harnesses=[H(P, "VerifH_C11_copyEligibility"), H(P, "VerifH_C02_reencodeRowBoundaries")],
